@@ -237,6 +237,9 @@ def pipeline(pid, tier, rep):
     for act in ("Add", "Finish"):
         if not rep.extra.get("actions_fired", {}).get(act):
             raise lib.Machinery("vacuous generator run: action %s of BytecodeGen never fired" % act)
+    # the empty code string under every table (not a behaviour of the generator, whose Finish needs one instruction): the stream and the
+    # label set of an empty code object are empty
+    beh += [{"tab": k_, "code": []} for k_ in xkeys]
     seen = set()
     ub = []
     for b in beh:
